@@ -40,9 +40,12 @@ GAS = [W.ga(1, 0, 1), W.ga(1, 0, 2), W.ga(1, 1, 1), W.ga(2, 3, 10), W.ga(2, 3, 2
        W.ga(17, 0, 1), W.ga(18, 3, 10), W.ga(31, 7, 255), W.ga(16, 0, 0)]   # main groups 16..31 are legal too
 INTERNALS = ["i-abc", "i-abd", "i-xyz"]
 LEVEL_PARTS = {
-    "main": ["*", "1", "2", "1-2", "1,5", "-1", "2-", "0", "17", "16-", "-15", "2,18", "31"],
-    "middle": ["*", "0", "1", "3", "0-1", "3,7", "-3", "1-"],
-    "sub": ["*", "1", "2", "10", "1-2", "10-200", "200-", "-10", "1,255", "2,10-20"],
+    "main": ["*", "1", "2", "1-2", "1,5", "-1", "2-", "0", "17", "16-", "-15", "2,18", "31",
+             # parts that overlap or lie inside one another, in any order
+             "0-20,2", "*,2", "2,*", "1-5,2-3,18", "17,1-31", "5,1-2,1"],
+    "middle": ["*", "0", "1", "3", "0-1", "3,7", "-3", "1-", "0-7,3", "3,0-7", "*,1", "1-3,2", "0-1,1-3"],
+    "sub": ["*", "1", "2", "10", "1-2", "10-200", "200-", "-10", "1,255", "2,10-20",
+            "0-255,10", "10-200,12,30", "1-10,2-3,255", "200-,255", "*,1", "10,1-255", "1-2,2-10", "0-100,50"],
 }
 GLOBS = ["i-abc", "i-ab?", "i-a*", "i-*", "i-x*", "i-?b?"]
 FREE_PARTS = ["*", "2050", "2049-2060", "-3000", "4874-", "1,2050,36865", "2305", "60000-"]   # whole-address patterns (free format)
